@@ -1031,6 +1031,11 @@ const HOSTS: &[&str] = &[
     // IDN
     "münchen.de", "MÜNCHEN.DE", "пример.рф", "例え.jp", "xn--mnchen-3ya.de", "straße.de", "😀.com", "é.com",
     "www.é.com", "a.é", "xn--.com", "xn--a.com", "İ.com",
+    // upper-case non-ASCII whose lower-casing is context- or mapping-dependent (final sigma before a
+    // digit / hyphen / the end, capital sharp s, title-case digraph, Kelvin sign, ligature): both
+    // formats must fold it the same way
+    "ΟΔΟΣ24.gr", "ΕΛΛΆΣ-news.gr", "news.ΕΛΛΆΣ", "ΕΛΛΆΣ.gr", "οδος24.gr", "ΣΊΣΥΦΟΣ.gr", "ẞ.de", "ǅ.com", "\u{212a}.com", "ﬁ.com",
+    "WWW.ΟΔΟΣ24.gr",
     // dotted edge cases and things the hosts parser refuses
     ".example.com", "example.com.", "example..com", ".", "..", ".com", "com", "localhost",
     "localhost.localdomain", "a.", ".a.b", "LOCALHOST",
